@@ -1935,6 +1935,20 @@ func loopEnum(args []string, w *bufio.Writer) {
 			"peer 1 send 8", "poll", "pending")
 		emit("obj 1 "+kind, "prog 12 peer 1 steal", "recvfrom 1 16 op=11", "post op=12", "peer 1 send 0", "poll", "pending", "peer 1 send 8", "poll", "poll", "pending")
 	}
+	// 5g. many descriptors: more interests registered than one epoll_wait harvests (128), the registration that crosses the mark is
+	// made by a callback while the batch it belongs to still has events to dispatch
+	for _, total := range []int{131, 262} {
+		var lines []string
+		for k := 1; k <= total+3; k++ {
+			lines = append(lines, fmt.Sprintf("obj %d tcp", k))
+		}
+		lines = append(lines, fmt.Sprintf("prog 11 read %d 4 op=+ ; read %d 4 op=+ ; read %d 4 op=+", total+1, total+2, total+3))
+		for k := 1; k <= total-3; k++ {
+			lines = append(lines, fmt.Sprintf("read %d 4 op=%d", k, 10+k))
+		}
+		lines = append(lines, "pending", "peer 1 write 4", "peer 2 write 4", "peer 3 write 4", "poll", "pending", "poll", "pending")
+		emit(lines...)
+	}
 	// 5f. one receive buffer for every read of an object, a new callback each time (what an application with a single packet buffer
 	// does): each callback belongs to its own read
 	for _, kind := range []string{"packet", "mpeer"} {
